@@ -638,5 +638,145 @@ theorem stepSum_pairs (g : Nat → Nat → α) :
     simp only [stepSum, this, Option.toList_some, List.singleton_append, pairs_cons_cons,
       List.map_cons, List.sum_cons]
 
+/-! ### Closed forms -/
+
+theorem init_slot (fs : List (Feat α)) (j : Nat) :
+    (initialState fs)[j]? = (fs[j]?).map (·.init) := by
+  simp [initialState]
+
+/-- the declared initial value of the distance feature is what the initial state holds in its slot -/
+theorem DistSlot.init {fs : List (Feat α)} {i : Nat} {fu : DistanceUnit} (hs : DistSlot fs i fu) :
+    ∃ f, fs[i]? = some f ∧ (initialState fs)[i]? = some f.init := by
+  have hk := hs.kind
+  cases hf : fs[i]? with
+  | none => rw [hf] at hk; cases hk
+  | some f => exact ⟨f, rfl, by rw [init_slot, hf]; rfl⟩
+
+theorem TimeSlot.init {fs : List (Feat α)} {t : Nat} {ftu : TimeUnit} (hs : TimeSlot fs t ftu) :
+    ∃ f, fs[t]? = some f ∧ (initialState fs)[t]? = some f.init := by
+  have hk := hs.kind
+  cases hf : fs[t]? with
+  | none => rw [hf] at hk; cases hk
+  | some f => exact ⟨f, rfl, by rw [init_slot, hf]; rfl⟩
+
+/-- the step that produced route element `k` -/
+theorem AccFrom.step_at {c : Config α} {last : Option Nat} {st : List α} {route : List (Branch α)}
+    (h : AccFrom c last st route) (k : Nat) (hk : k < route.length) :
+    ∃ last' st', edgeTraversal c route[k].edge last' st' =
+      .ok (route[k].access, route[k].traversal, route[k].state) := by
+  cases k with
+  | zero => exact ⟨_, _, h.head hk⟩
+  | succ k => exact ⟨_, _, h.getElem k hk⟩
+
+/-- every edge of the route exists in the edge list -/
+theorem route_edges_defined {c : Config α} {last : Option Nat} {st : List α}
+    {route : List (Branch α)} (hacc : AccFrom c last st route) :
+    ∀ k (hk : k < route.length), ∃ er, c.edges[route[k].edge]? = some er := by
+  intro k hk
+  obtain ⟨_, _, h⟩ := hacc.step_at k hk
+  obtain ⟨_, _, h2⟩ := edgeTraversal_ok h
+  exact traverse_edge_defined h2
+
+/-- speed-table model: `create_time` returned a value for every edge of the route -/
+theorem route_times_defined {c : Config α} {last : Option Nat} {st : List α}
+    {route : List (Branch α)} (hacc : AccFrom c last st route)
+    {su : SpeedUnit} {du : DistanceUnit} {tu : TimeUnit} {ms : α} {table : List α}
+    (htrav : c.trav = .speed su du tu ms table) :
+    ∀ k (hk : k < route.length), ∃ tv, speedTime? c.edges su du tu table route[k].edge = some tv := by
+  intro k hk
+  obtain ⟨_, _, h⟩ := hacc.step_at k hk
+  obtain ⟨_, _, h2⟩ := edgeTraversal_ok h
+  rw [htrav] at h2
+  exact traverse_time_defined h2
+
+/-- turn-delay model: a delay was found for every turn of the route -/
+theorem route_delays_defined {c : Config α} {last : Option Nat} {st : List α}
+    {route : List (Branch α)} (hacc : AccFrom c last st route)
+    {dtu : TimeUnit} {headings : List (Int × Option Int)} {delays : List (Option α)}
+    (hac : c.access = .turnDelay dtu headings delays) :
+    ∀ k (hk : k + 1 < route.length), ∃ d,
+      turnDelayOf headings delays (prevEdge c route[k].edge route[k + 1].edge)
+        (nextEdge c route[k].edge route[k + 1].edge) = some d := by
+  intro k hk
+  obtain ⟨_, h1, _⟩ := edgeTraversal_ok (hacc.getElem k hk)
+  simp only at h1
+  rw [hac] at h1
+  exact access_delay_defined h1
+
+/-- **1. distance is the sum of the edge lengths**, expressed in the feature's unit: for every
+traversal model and every access model, the distance slot of route element `k` is the declared
+initial value plus the sum over the first `k + 1` edges of their length converted (base unit → the
+model's unit → the feature's unit); every edge of the route exists, so no term is a default. -/
+theorem route_distance_is_sum {c : Config α} {route : List (Branch α)} (hacc : Accumulates c route)
+    {i : Nat} {fu : DistanceUnit} (hs : DistSlot c.feats i fu) :
+    ∃ f, c.feats[i]? = some f ∧
+      (∀ k (hk : k < route.length), ∃ er, c.edges[route[k].edge]? = some er) ∧
+      ∀ k (hk : k < route.length),
+        route[k].state[i]? =
+          some (f.init + ((prefixEdges route k).map (distTerm c.trav c.edges fu)).sum) := by
+  obtain ⟨f, hf, hx⟩ := hs.init
+  refine ⟨f, hf, route_edges_defined hacc, ?_⟩
+  intro k hk
+  have := accFrom_slot (d := fun _ e => distTerm c.trav c.edges fu e)
+    (fun e last st ac tc st' h => step_dist hs h) route none _ _ hacc hx k hk
+  rw [this, stepSum_edges]
+
+/-- the distance term written out -/
+theorem distTerm_eq {m : TravModel α} {edges : List (EdgeRec α)} {e : Nat} {er : EdgeRec α}
+    (her : edges[e]? = some er) (fu : DistanceUnit) :
+    distTerm m edges fu e = (travDu m).convert fu (baseDistanceUnit.convert (travDu m) er.dist) := by
+  simp only [distTerm, her]
+
+theorem travDu_distance (du : DistanceUnit) : travDu (TravModel.distance du : TravModel α) = du := rfl
+theorem travDu_speed (su : SpeedUnit) (du : DistanceUnit) (tu : TimeUnit) (ms : α) (table : List α) :
+    travDu (TravModel.speed su du tu ms table) = du := rfl
+
+/-- **2. time is the sum of the traversal times plus the delay of each turn taken, each once**: for
+every traversal and access model, the time slot of route element `k` is the declared initial value
+plus the sum over the first `k + 1` edges of the time `create_time` returned for them (speed-table
+model; nothing under the distance model), converted from the model's time unit to the feature's
+unit, plus the sum over the `k` consecutive pairs of those edges of the delay the table holds for
+the turn, converted from the table's unit to the feature's unit. -/
+theorem route_time_is_sum {c : Config α} {route : List (Branch α)} (hacc : Accumulates c route)
+    {t : Nat} {ftu : TimeUnit} (hs : TimeSlot c.feats t ftu) :
+    ∃ f, c.feats[t]? = some f ∧
+      ∀ k (hk : k < route.length),
+        route[k].state[t]? =
+          some (f.init + ((prefixEdges route k).map (timeTerm c.trav c.edges ftu)).sum
+            + ((pairs (prefixEdges route k)).map (fun p => turnDelayTerm c ftu p.1 p.2)).sum) := by
+  obtain ⟨f, hf, hx⟩ := hs.init
+  refine ⟨f, hf, ?_⟩
+  intro k hk
+  have := accFrom_slot
+    (d := fun last e => (fun _ e => timeTerm c.trav c.edges ftu e) last e +
+      (fun l e => match l with | none => 0 | some l => turnDelayTerm c ftu l e) last e)
+    (fun e last st ac tc st' h => by
+      have := step_time hs h
+      cases last <;> exact this) route none _ _ hacc hx k hk
+  rw [this, stepSum_add, stepSum_edges, stepSum_pairs, add_assoc]
+  rfl
+
+/-- **4. every slot that is neither the distance nor the time slot keeps its initial value** -/
+theorem accFrom_other {c : Config α} {j : Nat} (hjd : featIndex c.feats "distance" ≠ some j)
+    (hjt : featIndex c.feats "time" ≠ some j) :
+    ∀ (route : List (Branch α)) (last : Option Nat) (st : List α), AccFrom c last st route →
+      ∀ k (hk : k < route.length), route[k].state[j]? = st[j]?
+  | [], _, _, _, k, hk => by simp at hk
+  | b :: r, last, st, h, k, hk => by
+    have hb := step_other h.1 j hjd hjt
+    cases k with
+    | zero => simpa using hb
+    | succ k =>
+      have := accFrom_other hjd hjt r (some b.edge) b.state h.2 k (by simpa using hk)
+      simp only [List.getElem_cons_succ]
+      rw [this, hb]
+
+theorem other_slots_unchanged {c : Config α} {route : List (Branch α)} (hacc : Accumulates c route)
+    {j : Nat} (hjd : featIndex c.feats "distance" ≠ some j)
+    (hjt : featIndex c.feats "time" ≠ some j) :
+    ∀ k (hk : k < route.length), route[k].state[j]? = (c.feats[j]?).map (·.init) := by
+  intro k hk
+  rw [accFrom_other hjd hjt route none _ hacc k hk, init_slot]
+
 end RouteSums
 end Compass
